@@ -29,8 +29,15 @@ SWEEP_DOC = c01.SWEEP_DOC
 _PICKLED = {}
 
 
+def long_read(case):
+    """Reads of tens of kilobases are described, not spelled out: filler + planted middle + filler."""
+    b = case["read_build"]
+    return b["fill"] * b["left"] + b["mid"] + b["fill"] * b["right"]
+
+
 def check_diff(case, ctx):
-    spec, read = case["adapter"], case["read"]
+    spec = case["adapter"]
+    read = long_read(case) if "read_build" in case else case["read"]
     try:
         a = c01.cached_adapter(spec)
         b = c02.without_prefilter(spec)
@@ -111,6 +118,20 @@ def diff_case(draw):
         b = draw(st.integers(a, len(sn)))
         read = sn[a:b]
         labels = ["plant:infix-exact"]
+    if draw(st.integers(0, 24)) == 0:
+        # a very long read (long-read instruments, contigs): the occurrence sits across a multiple of a power of two
+        # of the read position, where block-wise scanning would have its seams
+        block = draw(st.sampled_from([4096, 8192, 16384, 32768, 65536]))
+        mult = draw(st.integers(1, 2)) if block <= 16384 else 1
+        fill = next((c for c in "GTAC" if c not in sn), "N")
+        left = max(0, block * mult - draw(st.integers(0, len(read) + 2)))
+        right = draw(st.sampled_from([0, 3, 40, 5000]))
+        if spec["type"] in ("prefix", "nifront"):
+            left, right = 0, block * mult + draw(st.integers(0, 40))
+        elif spec["type"] in ("suffix", "niback"):
+            right = 0
+        return {"sub": "diff", "adapter": spec, "read": "", "labels": labels + ["read:very-long"],
+                "read_build": {"fill": fill, "left": left, "mid": read, "right": right}}
     return {"sub": "diff", "adapter": spec, "read": read, "labels": labels}
 
 
